@@ -3,7 +3,9 @@ import J5V.Conc.SchedFlat
 import J5V.Conc.SchedSerial
 import J5V.Conc.SchedLocal
 import J5V.Conc.SchedHB
+import J5V.Conc.SchedHBDec
 import J5V.Conc.SchedRW
+import J5V.Conc.SchedRWSerial
 import J5V.Conc.CacheProofs
 import J5V.Generated.LocksFacts
 /-!
@@ -61,6 +63,10 @@ theorem C10_rw_guarded_hb_race_free (wv : WriteFn) (l : Nat) (p : Prog) (h : RWG
 theorem C10_guarded_hb_race_free (wv : WriteFn) (l : Nat) (p : Prog) (h : AllGuardedBy l p) :
     ∀ sched : List Nat, ¬ RaceHB (trace wv p sched) :=
   C10_rw_guarded_hb_race_free wv l p (allGuarded_pubGuarded l _ p h)
+
+/-- Happens-before races are decidable: the detector `raceHBb` (reachability through increasing
+positions of the trace) says yes exactly when there is one. -/
+theorem C10_race_detector (tr : List Ev) : RaceHB tr ↔ raceHBb tr = true := raceHB_iff tr
 
 /-- The trace is the trace of `run`: the traced machine goes through the same states. -/
 theorem C10_trace_of_run (wv : WriteFn) (p : Prog) (sched : List Nat) : (trun wv p sched).st = run wv p sched :=
@@ -148,6 +154,17 @@ theorem C10_rw_write_sections_isolated (wv : WriteFn) (l : Nat) (p : Prog) (h : 
   have hg : GIx l (rwOpsShape l) (run wv p sched) :=
     gix_runFrom wv l _ (disc_rwOps l) sched _ (gix_init l _ p h)
   exact ⟨fun i j hi hij => rw_write_isolated wv l _ hg i j hi hij, fun hr j => rw_read_snapshot wv l _ hg j hr⟩
+
+/-- … and a completed run of reader/writer operations (read sections may overlap) is exactly a
+sequential execution of whole operations, in the order in which they completed: same memory, same
+observations of every thread. So a lookup under the read lock sees the cache as some sequence of
+whole builds left it. -/
+theorem C10_rw_serialisable (wv : WriteFn) (l : Nat) (p : Prog) (h : RWOpsProg l p) (sched : List Nat)
+    (hdone : AllDone (run wv p sched)) :
+    ∃ order, (run wv p sched).mem = (runSeqRW wv p order).mem ∧
+      (run wv p sched).logs = (runSeqRW wv p order).logs ∧
+      (run wv p sched).rem = (runSeqRW wv p order).rem :=
+  rw_serialisable wv l p h sched hdone
 
 /-! ## The cache -/
 
@@ -310,20 +327,20 @@ def siteTrace (s : Access × Nat) : Thread :=
 
 def codeThread (sites : List (Access × Nat)) : Thread := sites.flatMap siteTrace
 
-theorem row_guard (a : Access) (ha : a ∈ accesses) (hw : a.write = true) : isW a.guard = true := by
+theorem C10_code_write_rows_hold_write_lock (a : Access) (ha : a ∈ accesses) (hw : a.write = true) : isW a.guard = true := by
   have hall := C10_code_guarded
   unfold codeGuarded at hall
   rw [List.all_eq_true] at hall
   have := hall a ha
   simpa [mustGuard, hw] using this
 
-theorem isW_isRW (g : Option Nat) (h : isW g = true) : isRW g = true := by
+theorem C10_code_writer_is_reader (g : Option Nat) (h : isW g = true) : isRW g = true := by
   simp only [isW, Bool.and_eq_true, beq_iff_eq, decide_eq_true_eq] at h
   obtain ⟨rfl, _⟩ := h
   have := C10_code_extracted.2.2.2.1
   simp [isRW, this]
 
-theorem codeThread_guarded (X : Nat → Bool) (sites : List (Access × Nat))
+theorem C10_code_thread_disciplined (X : Nat → Bool) (sites : List (Access × Nat))
     (h : ∀ s ∈ sites, s.1 ∈ accesses ∧ (isRW s.1.guard = false → X s.2 = true)) :
     pubGuardedFrom 0 X .N (codeThread sites) = true := by
   induction sites with
@@ -339,7 +356,7 @@ theorem codeThread_guarded (X : Nat → Bool) (sites : List (Access × Nat))
     · have hnw : s.1.write = false := by
         cases hw : s.1.write with
         | false => rfl
-        | true => exact absurd (row_guard s.1 hs hw) hW
+        | true => exact absurd (C10_code_write_rows_hold_write_lock s.1 hs hw) hW
       by_cases hR : isRW s.1.guard = true
       · have hst : siteTrace s = [.rlock 0, act s.1 s.2, .runlock 0] := by simp [siteTrace, hW, hR]
         rw [hst]
@@ -360,7 +377,7 @@ theorem C10_code_hb_race_free (wv : WriteFn) (X : Nat → Bool) (gs : List (List
   apply C10_hb_publication wv 0 X _ _ sched hpub
   intro t ht
   obtain ⟨g, hg, rfl⟩ := List.mem_map.mp ht
-  exact codeThread_guarded X g (h g hg)
+  exact C10_code_thread_disciplined X g (h g hg)
 
 def protectedAccesses : List Access := accesses.filter mustGuard
 
@@ -372,7 +389,7 @@ theorem C10_code_race_free (wv : WriteFn) (gs : List (List (Access × Nat)))
   have hg : RWGuardedBy 0 (gs.map codeThread) := by
     intro t ht
     obtain ⟨g, hg, rfl⟩ := List.mem_map.mp ht
-    refine codeThread_guarded _ g (fun s hs => ?_)
+    refine C10_code_thread_disciplined _ g (fun s hs => ?_)
     have hm := List.mem_filter.mp (h g hg s hs)
     refine ⟨hm.1, fun hR => ?_⟩
     have hall := C10_code_guarded
@@ -382,7 +399,7 @@ theorem C10_code_race_free (wv : WriteFn) (gs : List (List (Access × Nat)))
     rw [hm.2] at hrow
     have : isRW s.1.guard = true := by
       cases hw : s.1.write with
-      | true => rw [hw] at hrow; exact isW_isRW _ (by simpa using hrow)
+      | true => rw [hw] at hrow; exact C10_code_writer_is_reader _ (by simpa using hrow)
       | false => rw [hw] at hrow; simpa using hrow
     rw [this] at hR; cases hR
   exact ⟨C10_rw_guarded_race_free wv 0 _ hg sched, C10_rw_guarded_hb_race_free wv 0 _ hg sched⟩
@@ -448,12 +465,31 @@ payload afterwards without going through the lock again — a happens-before rac
 between the builder's write (position 4) and that read (position 7) -/
 def pubBad : List Nat := [1, 1, 1, 0, 0, 0, 0, 1]
 
-theorem pubBad_races : RaceHB (trace one pubProg pubBad) :=
+theorem C10_publication_violated_races : RaceHB (trace one pubProg pubBad) :=
   ⟨4, 7, ⟨0, .write 5⟩, ⟨1, .read 5⟩, 5, true, false, by decide, by decide, by decide, by decide, rfl, rfl,
     Or.inl rfl, not_hb_of_closed _ (fun a b => !(decide (3 ≤ a) && b == 7)) (by decide) 4 7 rfl⟩
 
 example : ¬ PubOrdered 0 pubX (trace one pubProg pubBad) :=
-  fun h => C10_hb_publication one 0 pubX pubProg (by decide) pubBad h pubBad_races
+  fun h => C10_hb_publication one 0 pubX pubProg (by decide) pubBad h C10_publication_violated_races
+
+/-- the same two facts by evaluation of the detector (an independent check of the theorem on this instance) -/
+example : ¬ RaceHB (trace one pubProg pubGood) ∧ RaceHB (trace one pubProg pubBad) := by decide
+
+/-- all schedules of `n` threads of the given length -/
+def allScheds (n : Nat) : Nat → List (List Nat)
+  | 0 => [[]]
+  | len + 1 => (allScheds n len).flatMap fun σ => (List.range n).map (· :: σ)
+
+/-- A builder and a reader that goes through the lock once and then reads the payload: over **all**
+64 schedules of length 6, whenever the execution obeys the publication rule the detector finds no
+race (what `C10_hb_publication` says), some schedules obey it and complete, and some do race (the
+reader's section came first) — the hypothesis is what separates them. -/
+def pubTiny : Prog := [[.lock 0, .write 5, .unlock 0], [.lock 0, .unlock 0, .read 5]]
+
+example :
+    (allScheds 2 6).all (fun σ => !pubOrderedB 0 pubX (trace one pubTiny σ) || !raceHBb (trace one pubTiny σ)) = true ∧
+    (allScheds 2 6).any (fun σ => pubOrderedB 0 pubX (trace one pubTiny σ) && (run one pubTiny σ).rem.all List.isEmpty) = true ∧
+    (allScheds 2 6).any (fun σ => raceHBb (trace one pubTiny σ)) = true := by decide
 
 /-! ### deadlock -/
 
@@ -476,6 +512,20 @@ example : ¬ NoNesting m3Prog := by decide
 example : let s := run one m3Prog [0, 1]
     (¬ AllDone s) ∧ ∀ i, ¬ Enabled s i := stuck_of_check _ (by decide)
 example : AllDone (run one m3Prog [0, 0, 0, 0, 0, 1, 1, 1]) := allDone_of_check _ (by decide)
+
+/-- reader/writer operations: two readers whose sections overlap in the schedule below, a writer,
+local steps in between; a write inside a read section is not an operation -/
+def rwProg : Prog := [
+  [.rlock 0, .read 1, .runlock 0, .tau, .lock 0, .read 1, .write 2, .unlock 0],
+  [.rlock 0, .read 1, .tau, .read 2, .runlock 0],
+  [.tau, .lock 0, .write 1, .unlock 0]]
+
+example : RWOpsProg 0 rwProg := by decide
+example : ¬ RWOpsProg 0 [[.rlock 0, .write 1, .runlock 0]] := by decide
+/-- the hypotheses of `C10_rw_serialisable` for a schedule in which the two read sections overlap
+and the writer announces itself while they are inside -/
+example : AllDone (run one rwProg [0, 1, 2, 2, 0, 1, 1, 0, 1, 1, 2, 2, 2, 0, 0, 0, 0, 0]) :=
+  allDone_of_check _ (by decide)
 
 /-- operations as critical sections -/
 example : OpsProg 0 [[.lock 0, .read 1, .write 1, .unlock 0, .lock 0, .write 2, .unlock 0], [.lock 0, .read 1, .write 1, .unlock 0]] := by decide
@@ -561,7 +611,7 @@ example : ¬ NoNesting m2Prog ∧ ¬ RWGuardedBy 0 m2Prog ∧ ¬ RWGuardedBy 1 m
 build (it still owns `buildMu`), and it observes the index entry (1) with `To` still unset (0) —
 the placeholder of a build in progress -/
 example : let s := run one m2Prog [0, 0, 0, 0, 1, 1, 1, 1]
-    s.owner 0 = some 0 ∧ s.rem[1]? = some [] ∧ s.logs[1]? = some [1, 0] := by decide
+    s.owner 0 = some 0 ∧ s.rem[1]? = some [] ∧ s.logs 1 = [1, 0] := by decide
 
 /-- … and the link that follows is a happens-before race with that lookup's read of `To` -/
 example : RaceHB (trace one m2Prog [0, 0, 0, 0, 1, 1, 1, 1, 0, 0]) :=
